@@ -8,7 +8,6 @@ import (
 	"path/filepath"
 
 	"github.com/protobom/protobom/pkg/sbom"
-	"github.com/sirupsen/logrus"
 	"google.golang.org/protobuf/proto"
 	"sigs.k8s.io/release-utils/util"
 )
@@ -53,7 +52,7 @@ func (fs *FileSystem) Store(bom *sbom.Document, opts *StoreOptions) error {
 	switch {
 	// Check if the data directory exists
 	case err != nil && errors.Is(err, os.ErrNotExist):
-		if err := os.MkdirAll(fs.Options.Path, os.FileMode(0o644)); err != nil {
+		if err := os.MkdirAll(fs.Options.Path, os.FileMode(0o755)); err != nil {
 			return fmt.Errorf("error creating filesystem backend storage directory")
 		}
 	case err != nil:
@@ -106,11 +105,18 @@ func (fs *FileSystem) Retrieve(id string, _ *RetrieveOptions) (*sbom.Document, e
 
 	data, err := os.ReadFile(filepath.Join(fs.Options.Path, filename))
 	if err != nil {
-		logrus.Fatal(fmt.Errorf("reading protobom data from disk: %v", err))
+		return nil, fmt.Errorf("reading protobom data from disk: %w", err)
 	}
 	bom := &sbom.Document{}
 	if err := proto.Unmarshal(data, bom); err != nil {
-		logrus.Fatal(fmt.Errorf("unmarshaling protobom data: %v", err))
+		return nil, fmt.Errorf("unmarshaling protobom data: %w", err)
+	}
+
+	// An entry that does not hold the requested document (for example an
+	// empty or damaged file, which protobuf decodes without complaint) is
+	// an error, not an empty document.
+	if bom.GetMetadata().GetId() != id {
+		return nil, fmt.Errorf("stored entry does not contain document %q", id)
 	}
 
 	return bom, nil
